@@ -18,7 +18,10 @@ import (
 //
 //	cfg <n> <ignbits> <mon>        first op: 1..3 servers, ignore_resource_deletion bit per server;
 //	                               <mon> selects the monitor of the Lean driver (c43 | c44)
-//	watch <T|U|X> <name> <wid>     T: AllResourcesRequiredInSotW, U: not, X: unknown type
+//	watch <T|U|X> <name> <wid>     T: AllResourcesRequiredInSotW, U: not, X: unknown type; names b_<id> belong to a
+//	                               second authority "b" (xdstp://b/<type>/<id>) with the same server list: the two
+//	                               authorities share the ref-counted xdsChannels
+//	nobuild <i+j|->                TransportBuilder.Build fails for these servers from now on
 //	unwatch <wid>
 //	respond <srv> <T|U> <ver> <name:ok:content,name:bad:tag,?:tag…|->   server sends a response
 //	break <srv>                    the server's current stream fails
@@ -31,8 +34,8 @@ import (
 // grants them, lowest server first, one at a time, each followed by settle(). That makes the
 // order in which the channels' goroutines feed events into the authority deterministic.
 //
-// Output: cb=<watcher callback log of this op, grouped by watcher> act=<active server>
-// s<i>=<builds>/<streams>/<stream state…> res=<authority resource states>
+// Output: cb=<watcher callback log of this op, grouped by watcher> s<i>=<builds>/<streams>/<stream state…>/x<refs>/…
+// then per authority (prefix b for the second): act=<active server> open=<servers it holds a channel to> res=<resource states>
 const (
 	xaBackoff = 1000 * time.Millisecond
 	xaExpiry  = 2505 * time.Millisecond
@@ -146,6 +149,7 @@ type xaServer struct {
 	idx     int
 	uri     string
 	up      bool
+	nobuild bool // TransportBuilder.Build fails for this server
 	builds  int
 	streams int
 	tr      *xaTransport
@@ -158,6 +162,9 @@ func (b xaBuilder) Build(si clients.ServerIdentifier) (clients.Transport, error)
 	defer b.c.mu.Unlock()
 	for _, s := range b.c.srv {
 		if s.uri == si.ServerURI {
+			if s.nobuild {
+				return nil, errors.New("verif: transport cannot be created")
+			}
 			s.builds++
 			s.tr = &xaTransport{c: b.c, srv: s, gate: make(chan *xaStream)}
 			return s.tr, nil
@@ -205,6 +212,7 @@ type xaCb struct {
 type xaWatch struct {
 	w      *xaWatcher
 	cancel func()
+	top    bool
 }
 
 type xaCase struct {
@@ -312,17 +320,13 @@ func (c *xaCase) snapshot() string {
 	for _, id := range ids {
 		cbs = append(cbs, fmt.Sprintf("w%d:%s", id, strings.Join(by[id], "+")))
 	}
-	a := xdsclient.VerifXAAuthState(c.client)
-	act := "-"
-	if a.Active >= 0 {
-		act = fmt.Sprint(a.Active)
-	}
-	out := fmt.Sprintf("cb=%s act=%s", joinOr(cbs, ";"), act)
+	out := fmt.Sprintf("cb=%s", joinOr(cbs, ";"))
 	for i, s := range c.srv {
+		ch := xdsclient.VerifXAChannel(c.client, s.uri)
 		t := s.tr
 		if t == nil || t.closed {
-			if i < len(a.Open) && a.Open[i] {
-				out += fmt.Sprintf(" s%d=%d/%d/INCONSISTENT-open-but-transport-closed", i, s.builds, s.streams)
+			if ch.Exists {
+				out += fmt.Sprintf(" s%d=%d/%d/INCONSISTENT-channel-but-transport-closed", i, s.builds, s.streams)
 			} else {
 				out += fmt.Sprintf(" s%d=%d/%d/closed", i, s.builds, s.streams)
 			}
@@ -343,7 +347,12 @@ func (c *xaCase) snapshot() string {
 			if state == "live" {
 				var vs []string
 				for typ, names := range st.last {
-					vs = append(vs, typ+":"+strings.Join(names, "+"))
+					var ns []string
+					for _, n := range names {
+						ns = append(ns, xaFromWire(typ, n))
+					}
+					sort.Strings(ns)
+					vs = append(vs, typ+":"+strings.Join(ns, "+"))
 				}
 				sort.Strings(vs)
 				view = joinOr(vs, ",")
@@ -354,21 +363,46 @@ func (c *xaCase) snapshot() string {
 				flags = "B" + flags
 			}
 		}
-		if xdsclient.VerifXAFlowPending(c.client, i) {
+		if ch.Pending {
 			flags += "p"
 		} else {
 			flags += "f"
 		}
+		var refs []string
+		for _, r := range ch.Refs {
+			if r == "" {
+				refs = append(refs, "0")
+			} else {
+				refs = append(refs, "1")
+			}
+		}
+		sort.Strings(refs)
 		var ws []string
-		for _, sub := range xdsclient.VerifXAChanSubs(c.client, i) {
+		for _, sub := range ch.Subs {
 			l := map[string]string{"started": "s", "requested": "q", "received": "r", "timeout": "t"}[sub.State]
 			if (sub.State == "requested") != sub.Timer {
 				l += "!"
 			}
-			ws = append(ws, sub.Type+"."+sub.Name+":"+l)
+			ws = append(ws, sub.Type+"."+xaFromWire(sub.Type, sub.Name)+":"+l)
 		}
 		sort.Strings(ws)
-		out += fmt.Sprintf(" s%d=%d/%d/%s%s/u%d/view=%s/ws=%s", i, s.builds, s.streams, state, flags, unread, view, joinOr(ws, "+"))
+		out += fmt.Sprintf(" s%d=%d/%d/%s%s/u%d/x%s/view=%s/ws=%s", i, s.builds, s.streams, state, flags, unread, joinOr(refs, "+"), view, joinOr(ws, "+"))
+	}
+	return out + " " + c.authSnapshot("", "") + " " + c.authSnapshot("b", "b")
+}
+
+// authSnapshot prints one authority: active server, servers it holds a channel reference to, resource states.
+func (c *xaCase) authSnapshot(name, pre string) string {
+	a := xdsclient.VerifXAAuthStateOf(c.client, name)
+	act := "-"
+	if a.Active >= 0 {
+		act = fmt.Sprint(a.Active)
+	}
+	var open []string
+	for i, o := range a.Open {
+		if o {
+			open = append(open, fmt.Sprint(i))
+		}
 	}
 	var rs []string
 	for _, r := range a.Res {
@@ -412,10 +446,25 @@ func (c *xaCase) snapshot() string {
 		if r.DeletionIgnored {
 			di = 1
 		}
-		rs = append(rs, fmt.Sprintf("%s.%s[w=%s;c=%s;st=%s;v=%s;e=%s;di=%d;ch=%s]", r.Type, r.Name, joinOr(ws, "+"), cache, r.Status, v, e, di, joinOr(ch, "+")))
+		rs = append(rs, fmt.Sprintf("%s.%s[w=%s;c=%s;st=%s;v=%s;e=%s;di=%d;ch=%s]", r.Type, xaFromWire(r.Type, r.Name), joinOr(ws, "+"), cache, r.Status, v, e, di, joinOr(ch, "+")))
 	}
 	sort.Strings(rs)
-	return out + " res=" + joinOr(rs, ",")
+	return fmt.Sprintf("%sact=%s %sopen=%s %sres=%s", pre, act, pre, joinOr(open, "+"), pre, joinOr(rs, ","))
+}
+
+// Resource names `b_<id>` belong to the authority "b" (xdstp://b/<type>/<id>), all others to the top-level authority.
+func xaToWire(typ, name string) string {
+	if strings.HasPrefix(name, "b_") {
+		return "xdstp://b/" + typ + "/" + name[2:]
+	}
+	return name
+}
+
+func xaFromWire(typ, name string) string {
+	if p := "xdstp://b/" + typ + "/"; strings.HasPrefix(name, p) {
+		return "b_" + name[len(p):]
+	}
+	return name
 }
 
 func (c *xaCase) server(f string) *xaServer {
@@ -453,6 +502,9 @@ func (c *xaCase) Op(f []string) string {
 				"U": {TypeURL: "U", TypeName: "U", AllResourcesRequiredInSotW: false, Decoder: xaDecoder{}},
 			},
 			WatchExpiryTimeout: xaExpiry,
+			// a second authority with an empty server list: it inherits the top-level servers, so the two
+			// authorities share every xdsChannel they both use
+			Authorities: map[string]xdsclient.Authority{"b": {}},
 		}
 		for i := 0; i < n; i++ {
 			s := &xaServer{idx: i, uri: fmt.Sprintf("srv%d", i), up: true}
@@ -480,26 +532,27 @@ func (c *xaCase) Op(f []string) string {
 	}
 	switch f[0] {
 	case "watch":
-		if c.release != nil {
-			return "held"
+		top := !strings.HasPrefix(f[2], "b_")
+		if top && c.release != nil {
+			return "held" // the call would block on the busy serializer
 		}
 		id := int(atoi64s(f[3]))
 		if _, ok := c.watches[id]; ok {
 			return "busy"
 		}
 		w := &xaWatcher{c: c, id: id}
-		cancel := c.client.WatchResource(f[1], f[2], w)
+		cancel := c.client.WatchResource(f[1], xaToWire(f[1], f[2]), w)
 		if f[1] == "T" || f[1] == "U" {
-			c.watches[id] = &xaWatch{w: w, cancel: cancel}
+			c.watches[id] = &xaWatch{w: w, cancel: cancel, top: top}
 		}
 	case "unwatch":
-		if c.release != nil {
-			return "held"
-		}
 		id := int(atoi64s(f[1]))
 		w, ok := c.watches[id]
 		if !ok {
 			return "nowatch"
+		}
+		if w.top && c.release != nil {
+			return "held"
 		}
 		delete(c.watches, id)
 		w.cancel()
@@ -519,7 +572,7 @@ func (c *xaCase) Op(f []string) string {
 				if len(p) == 2 && p[0] == "?" {
 					vals = append(vals, []byte("|top|"+p[1]))
 				} else if len(p) == 3 && (p[1] == "ok" || p[1] == "bad") {
-					vals = append(vals, []byte(p[0]+"|"+p[1]+"|"+p[2]))
+					vals = append(vals, []byte(xaToWire(f[2], p[0])+"|"+p[1]+"|"+p[2]))
 				} else {
 					return "bad-op"
 				}
@@ -567,6 +620,17 @@ func (c *xaCase) Op(f []string) string {
 			c.pump()
 			if next >= target {
 				break
+			}
+		}
+	case "nobuild":
+		for _, s := range c.srv {
+			s.nobuild = false
+		}
+		if f[1] != "-" {
+			for _, x := range strings.Split(f[1], "+") {
+				if s := c.server(x); s != nil {
+					s.nobuild = true
+				}
 			}
 		}
 	case "hold":
